@@ -255,6 +255,9 @@ func litInt(s string) (int, bool) {
 			return 0, false
 		}
 		n = n*10 + int(s[i]-'0')
+		if n > 1<<40 {
+			n = 1 << 40 // saturate: beyond any table size or value of the model
+		}
 	}
 	return n, true
 }
